@@ -920,14 +920,23 @@ class SyncObj(object):
                         self.__recvTransmission = message['data']
                         self.__sendNextNodeIdx(node, success=False, reset=False)
                         return
+                    elif not self.__recvTransmission:
+                        # A piece without its beginning (leftover of a transfer that was restarted, e.g. arriving on a
+                        # connection that has been replaced meanwhile): nothing to add it to
+                        return
                     elif transmission == 'process':
                         self.__recvTransmission += message['data']
                         self.__sendNextNodeIdx(node, success=False, reset=False)
                         return
                     elif transmission == 'finish':
-                        self.__recvTransmission += message['data']
-                        newEntries = [pickle.loads(self.__recvTransmission)]
+                        pieces = self.__recvTransmission + message['data']
                         self.__recvTransmission = ''
+                        try:
+                            newEntries = [pickle.loads(pieces)]
+                        except Exception:
+                            # pieces of two transfers: the leader sends the entry again after the rejection
+                            self.__sendNextNodeIdx(node, success=False, reset=True)
+                            return
                     else:
                         raise Exception('Wrong transmission type')
 
